@@ -23,6 +23,12 @@ Theorem C18_edge_dimension : et_dimension Edge = 1.
 Proof. exact edge_dimension. Qed.
 Theorem C18_threshold_is_le : forall dim c, threshold dim c = (dim <=? c).
 Proof. exact threshold_le. Qed.
+(* the per-element neighbour pipeline as the source writes it now (candidates = all elements under
+   all nodes of e1, nothing bounded -- recognised by the translator; then these steps) is one
+   for which the theorems below hold: a filter happens, and a sort precedes the last dedup *)
+Theorem C18_row_pipeline_ok : steps_ok dual_row_steps false false false = true.
+Proof. exact pipeline_ok. Qed.
+Print Assumptions C18_row_pipeline_ok.
 Print Assumptions C18_node_count_pos.
 Print Assumptions C18_edge_dimension.
 Print Assumptions C18_threshold_is_le.
@@ -118,6 +124,14 @@ Theorem C18_model_passes_checker : forall m g nb nu, wf_mesh m = true ->
   check_C18 m g nb nu = true.
 Proof. exact model_passes_checker. Qed.
 Print Assumptions C18_model_passes_checker.
+
+(* conversely: inside the contract, outputs the checker accepts are exactly the model's outputs
+   (the property determines the matrix), so for large meshes the run glue may take the checker's
+   verdict as the correspondence instead of re-running the model *)
+Theorem C18_checker_implies_model : forall m g nb nu, wf_mesh m = true -> check_C18 m g nb nu = true ->
+  dual m = Ok g /\ barycentre_count m = Ok nb /\ used_element_count m = Ok nu.
+Proof. exact checker_implies_model. Qed.
+Print Assumptions C18_checker_implies_model.
 
 (* non-vacuity: a mixed 3-D mesh (tetrahedra block, boundary triangles, a hexahedron block,
    edges, a second tetrahedra block) inside the contract; the hexahedron shares a face (3 nodes
